@@ -4,15 +4,22 @@
   `LocalNetworkXML` does — `out.setf(ios_base::fixed | scientific, floatfield); out.precision(p); out << x` —
   modelled over ℚ by `Model/DecimalCodec.lean` and tied to libstdc++ by the `codec` stream.
 
-  Per-site precision: `Gen/XmlSites.lean` / `Gen/XmlSkeleton.lean` do NOT record the precision in force at a site, and
-  the record model (`Model/XmlRecords.lean`) has ONE `Num` for all fields.  So the format `f : Fmt` (floatfield +
-  precision) is a PARAMETER of the statements: they hold for every format, in particular for the ones of
-  localnetworkxml.cpp (`fixed` 16 = `make_check_precision(·)` for coordinates and observations, `fixed` 3 / 6 / 7,
-  `scientific` 7 for covariances).
+  Per-site precision.  The `…_real` theorems take the format `f : Fmt` (floatfield + precision) as a PARAMETER: they
+  hold for every format.  Round 8 (gap #7 of audit #3): the format IN FORCE at every numeric operand of the writer is
+  REGENERATED (`Gen/XmlFmtSites.lean`, tools/gen/c12_skeleton.py: the `setf` / `precision` / `flags` statements and
+  `<<` manipulators executed before the output statement, on the stream the operand goes to, through calls, branches
+  and loops) and the `…_sites` theorems below are the round trips with THOSE formats, one per leaf:
+  `C12_number_sites_formats` (`decide` on the table of the tree being checked: every site has the format the result
+  file promises and one of the formats the law is instantiated for), `C12_site_number_law`,
+  `C12_section_roundtrip_sites`, `C12_orientation_roundtrip_sites`, `C12_observation_roundtrip_sites` (`<obs>`, `<adj>`,
+  `<stdev>` with 16, the control quantities with 3 decimals), `C12_band_roundtrip_text` (the `<flt>` texts of the
+  covariance band, `%.7e`: the reader reconstructs the band of `roundSig 8 ∘ Q`).
+  Over ℚ; IEEE doubles (the decimal → double rounding of the reader, −0.0, inf / nan) stay out of scope.
 -/
 import Gama.Lemmas.DecimalCodecC12
+import Gama.Lemmas.XmlFmtSpec
 namespace Gama.Props.C12Codec
-open Gama.XmlRec Gama.ReaderPoint Gama.Dec
+open Gama.XmlRec Gama.ReaderPoint Gama.Dec Gama.Gen.XmlFmtSites Gama.CovBand
 
 /-- the number law of the record round trips holds for every real format: what the reader gets is `f.q m x`
     (`roundTo m p x` for `fixed p`, `roundSig m (p+1) x` for `scientific p`) — every `x`, no side condition -/
@@ -84,6 +91,102 @@ theorem C12_observation_roundtrip_real (m : RMode) (f : Fmt) (zero : ℚ) (fr : 
     readObs (realNum m f) zero o.kind.tag (writeObs (realNum m f) fr o) = .ok (expectObs (realNum m f) (f.q m) zero fr o) :=
   readObs_writeObs (realNum m f) (f.q m) (realNum_law m f) zero fr o hfrom hto hbs hfs
 
+/-! ## the formats of the sites (round 8) -/
+
+/-- **every number site of the writer uses the format the result file promises, and one for which the number law is
+    instantiated** — `decide` on the REGENERATED table of the tree being checked: a changed `precision(…)`,
+    `setf(…, floatfield)`, `make_check_precision`, a manipulator moved after the output statement, an `int` site that
+    becomes a `double` with no determined format: all change `Gen.XmlFmtSites.sites` and make this fail.  The table is
+    not empty and has the covariance, coordinate and observation sites. -/
+theorem C12_number_sites_formats :
+    (∀ s ∈ sites, s.fmt = specFmt s ∧ s.fmt.instantiated = true) ∧
+    siteFmt "coordinates/cov-mat" "flt" = some (.sci 7) ∧
+    (∀ n ∈ ["x", "y", "z", "X", "Y", "Z"], siteFmt "coordinates/adjusted/point" n = some (.fixed 16) ∧
+      siteFmt "coordinates/approximate/point" n = some (.fixed 6)) ∧
+    (∀ n ∈ ["x", "y", "z"], siteFmt "coordinates/fixed/point" n = some (.fixed 6)) ∧
+    (∀ n ∈ ["approx", "adj"], siteFmt "orientation-shifts/orientation" n = some (.fixed 6)) ∧
+    (∀ k ∈ OKind.all,
+      (∀ n ∈ ["obs", "adj", "stdev"], siteFmt ("observations/" ++ k.tag) n = some (.fixed 16)) ∧
+      (∀ n ∈ ["qrr", "f", "std-residual", "err-obs", "err-adj"], siteFmt ("observations/" ++ k.tag) n = some (.fixed 3))) := by
+  refine ⟨?_, ?_, ?_, ?_, ?_, ?_⟩ <;> decide +kernel
+
+/-- the number law at every site of the regenerated table: reading what the site prints gives the quantisation of the
+    site's own format (`roundTo m p` for `fixed p`, `roundSig m (p+1)` for `scientific p`) — every `x`, both tie rules -/
+theorem C12_site_number_law (m : RMode) (s : FmtSite) (hs : s ∈ sites) (f : Fmt) (hf : s.fmt = .num f) (x : ℚ) :
+    rdDecimal (f.print m x) = some (f.q m x) ∧ f ∈ instFmts := by
+  refine ⟨rd_print m f x, ?_⟩
+  have h := (C12_number_sites_formats.1 s hs).2
+  rw [hf] at h
+  simpa [SiteFmt.instantiated] using h
+
+/-- a whole section of `<point>`s with the regenerated format of ITS coordinate leaves (`<fixed>`, `<approximate>`:
+    6 decimals; `<adjusted>`: `make_check_precision(6)` = 16) -/
+theorem C12_section_roundtrip_sites (m : RMode) (zero : ℚ) (s : Sect) (fr : Frame ℚ) (pts : List (LPoint ℚ))
+    (hid : ∀ p ∈ pts, Trimmed p.id) (st : PState ℚ) (ha : st.adjusted = (s == .adjusted)) :
+    -- all coordinate leaves of the section have ONE format in the regenerated table, the one of `x`
+    (∀ n ∈ ["x", "y", "z"], siteFmt (sectPath s) n = siteFmt (sectPath s) "x") ∧
+    (s ≠ .fixed → ∀ n ∈ ["X", "Y", "Z"], siteFmt (sectPath s) n = siteFmt (sectPath s) "x") ∧
+    siteQ m (sectPath s) "x" = roundTo m (if s = .adjusted then 16 else 6) ∧
+    ∃ r, readPoints (siteNum m (sectPath s) "x") zero st (writeSection (siteNum m (sectPath s) "x") s fr pts) = .ok r ∧
+      r.out = st.out ++ (expectSection (siteQ m (sectPath s) "x") zero s fr st.k pts).1 ∧
+      r.k = (expectSection (siteQ m (sectPath s) "x") zero s fr st.k pts).2 ∧ r.adjusted = st.adjusted := by
+  refine ⟨?_, ?_, ?_, readPoints_writeSection (siteNum m (sectPath s) "x") (siteQ m (sectPath s) "x")
+    (siteNum_law m (sectPath s) "x") zero s fr pts hid st ha⟩
+  · clear ha; cases s <;> decide +kernel
+  · clear ha; cases s
+    · intro h; exact absurd rfl h
+    · intro _; decide +kernel
+    · intro _; decide +kernel
+  · have h16 : siteFmt "coordinates/adjusted/point" "x" = some (.fixed 16) := by decide +kernel
+    have h6a : siteFmt "coordinates/approximate/point" "x" = some (.fixed 6) := by decide +kernel
+    have h6f : siteFmt "coordinates/fixed/point" "x" = some (.fixed 6) := by decide +kernel
+    clear ha; cases s <;> simp only [sectPath, siteQ, h16, h6a, h6f, Option.getD_some] <;> rfl
+
+/-- `<orientation>` records with the regenerated format of `<approx>` / `<adj>` (6 decimals) -/
+theorem C12_orientation_roundtrip_sites (m : RMode) (fr : Frame ℚ) (os : List (LOri ℚ))
+    (hid : ∀ o ∈ os, Trimmed o.id) (st : OState ℚ) :
+    siteFmt "orientation-shifts/orientation" "adj" = siteFmt "orientation-shifts/orientation" "approx" ∧
+    siteQ m "orientation-shifts/orientation" "approx" = roundTo m 6 ∧
+    ∃ r, readOris (siteNum m "orientation-shifts/orientation" "approx") st
+        (os.map (writeOri (siteNum m "orientation-shifts/orientation" "approx") fr)) = .ok r ∧ r.k = st.k + os.length ∧
+      r.out = st.out ++ expectOris (siteQ m "orientation-shifts/orientation" "approx") fr st.k os := by
+  have h : siteFmt "orientation-shifts/orientation" "approx" = some (.fixed 6) := by decide +kernel
+  refine ⟨by decide +kernel, ?_, readOris_writeOris _ _ (siteNum_law m _ _) fr os hid st⟩
+  simp only [siteQ, h, Option.getD_some]; rfl
+
+/-- **an observation element with the format of EACH leaf** (any of the 13 kinds): `<obs>`, `<adj>` (the visitor's
+    `linear` / `angular` = `make_check_precision(·)` = 16 decimals on the secondary stream), `<stdev>` (16), `<qrr>`,
+    `<f>`, `<std-residual>`, `<err-obs>`, `<err-adj>` (3 decimals) — the formats are looked up in the regenerated table
+    under the element of the observation's kind; the reader (one `get_float` for all leaves) gives back, leaf by leaf,
+    the quantisation of that leaf's format -/
+theorem C12_observation_roundtrip_sites (m : RMode) (zero : ℚ) (fr : Frame ℚ) (o : LObs ℚ)
+    (hfrom : Trimmed o.from_) (hto : Trimmed o.to) (hbs : Trimmed o.bs) (hfs : Trimmed o.fs) :
+    readObs (realNum m (.gen 6)) zero o.kind.tag (writeObsT (siteNum m ("observations/" ++ o.kind.tag)) fr o)
+      = .ok (expectObsT (siteNum m ("observations/" ++ o.kind.tag)) (siteQ m ("observations/" ++ o.kind.tag)) zero fr o) ∧
+    (∀ n ∈ ["obs", "adj", "stdev"], siteQ m ("observations/" ++ o.kind.tag) n = roundTo m 16) ∧
+    (∀ n ∈ ["qrr", "f", "std-residual", "err-obs", "err-adj"], siteQ m ("observations/" ++ o.kind.tag) n = roundTo m 3) := by
+  have hk : o.kind ∈ OKind.all := by cases o.kind <;> decide
+  have hf := C12_number_sites_formats.2.2.2.2.2 o.kind hk
+  refine ⟨readObs_writeObsT (realNum m (.gen 6)) _ _ (fun t x => siteNum_law m _ t x) zero fr o hfrom hto hbs hfs, ?_, ?_⟩
+  · intro n hn
+    have h : siteFmt ("observations/" ++ o.kind.tag) n = some (.fixed 16) := hf.1 n hn
+    unfold siteQ; rw [h]; rfl
+  · intro n hn
+    have h : siteFmt ("observations/" ++ o.kind.tag) n = some (.fixed 3) := hf.2 n hn
+    unfold siteQ; rw [h]; rfl
+
+/-- **the covariance band through its text** (`out.setf(scientific); out.precision(7)` — the regenerated format of
+    `<flt>`): gama's reader accepts the `<cov-mat>` the writer printed for any `Q`, `dim`, `--cov-band ≥ -1`, and the
+    `CovMat` it builds is, at every position of the dim × dim matrix (both triangles, 0 outside the band), the band of
+    `Q` ROUNDED TO 8 SIGNIFICANT DIGITS: `read (write (realNum (.sci 7)) Q) = bandOf (roundSig 8 ∘ Q)` -/
+theorem C12_band_roundtrip_text (m : RMode) (Q : Nat → Nat → ℚ) (dim : Nat) (band : Int) (h : -1 ≤ band) :
+    siteFmt "coordinates/cov-mat" "flt" = some (.sci 7) ∧
+    ∃ C : CovMat ℚ, readS (realNum m (.sci 7)) (writeS (realNum m (.sci 7)) Q dim band) = .ok C ∧ C.dim = dim ∧
+      C.band = clip band dim ∧
+      ∀ i j, 1 ≤ i → i ≤ dim → 1 ≤ j → j ≤ dim →
+        get C i j = bandOf (fun a b => roundSig m 8 (Q a b)) (clip band dim) i j :=
+  ⟨C12_number_sites_formats.2.1, read_writeS (realNum m (.sci 7)) (roundSig m 8) (realNum_law m (.sci 7)) Q dim band h⟩
+
 /-! ## non-vacuity -/
 
 -- 1.23456789 at four decimals; 0.99996 rounds up across the digit boundary; a tiny negative keeps its sign in the text
@@ -118,5 +221,31 @@ example : readObs (realNum .halfEven (.fixed 16)) 0 qObs.kind.tag (writeObs (rea
     = .ok (expectObs (realNum .halfEven (.fixed 16)) (roundTo .halfEven 16) 0 qFrame qObs) :=
   C12_observation_roundtrip_real .halfEven (.fixed 16) 0 qFrame qObs ⟨by decide, by decide⟩ ⟨by decide, by decide⟩
     ⟨by decide, by decide⟩ ⟨by decide, by decide⟩
+
+-- round 8: the regenerated table is not empty: 161 sites, 26 of them `int`
+example : sites.length = 161 ∧ (sites.filter (fun s => s.fmt == .int)).length = 26 := by decide +kernel
+-- an observation printed leaf by leaf with the regenerated formats: 16 decimals for the value, 3 for the control
+-- quantities (`#eval`: obs 12.3450000000000000, adj 12.3456666666666667, stdev 0.7000000000000000, qrr 1.000, f 1.286,
+-- std-residual 4.000, err-obs 0.333, err-adj -0.333), and read back leaf by leaf
+example : fmtFixedL .halfEven 16 (adjVal qFrame qObs) = "12.3456666666666667".toList ∧
+    fmtFixedL .halfEven 3 qObs.f = "1.286".toList ∧ hasErr qFrame qObs = true ∧
+    fmtFixedL .halfEven 3 (errAdj qFrame qObs) = "-0.333".toList := by decide +kernel
+example : readObs (realNum .halfEven (.gen 6)) 0 "dy" (writeObsT (siteNum .halfEven "observations/dy") qFrame qObs)
+    = .ok (expectObsT (siteNum .halfEven "observations/dy") (siteQ .halfEven "observations/dy") 0 qFrame qObs) :=
+  (C12_observation_roundtrip_sites .halfEven 0 qFrame qObs ⟨by decide, by decide⟩ ⟨by decide, by decide⟩
+    ⟨by decide, by decide⟩ ⟨by decide, by decide⟩).1
+-- the band as text: dim 3, band 1, Q(i,j) = (10 i + j)/3 — five `<flt>` texts (`#eval`: 3.6666667e+00 4.0000000e+00
+-- 7.3333333e+00 7.6666667e+00 1.1000000e+01), read back as the 8-digit values; (3,1) is outside the band
+example : (write (fun i j => ((10 * i + j : Nat) : ℚ) / 3) 3 1).flt.map (fmtSciL .halfEven 7) =
+    ["3.6666667e+00".toList, "4.0000000e+00".toList, "7.3333333e+00".toList, "7.6666667e+00".toList,
+     "1.1000000e+01".toList] := by decide +kernel
+example : ∃ C, readS (realNum .halfEven (.sci 7)) (writeS (realNum .halfEven (.sci 7)) (fun i j => ((10 * i + j : Nat) : ℚ) / 3) 3 1)
+      = .ok C ∧ get C 1 1 = 36666667 / 10000000 ∧ get C 2 1 = 4 ∧ get C 3 1 = 0 ∧ get C 3 3 = 11 := by
+  obtain ⟨_, C, h, _, _, hg⟩ := C12_band_roundtrip_text .halfEven (fun i j => ((10 * i + j : Nat) : ℚ) / 3) 3 1 (by decide)
+  refine ⟨C, h, ?_, ?_, ?_, ?_⟩
+  · rw [hg 1 1 (by decide) (by decide) (by decide) (by decide)]; decide +kernel
+  · rw [hg 2 1 (by decide) (by decide) (by decide) (by decide)]; decide +kernel
+  · rw [hg 3 1 (by decide) (by decide) (by decide) (by decide)]; decide +kernel
+  · rw [hg 3 3 (by decide) (by decide) (by decide) (by decide)]; decide +kernel
 
 end Gama.Props.C12Codec
